@@ -205,6 +205,7 @@ func Gen(store string) func(t *rapid.T) *Case {
 				op.From = genRef(t)
 			case "load":
 				op.Sub = genSub(t, true)
+				op.Fault = store == "sqlite" && rapid.IntRange(0, 3).Draw(t, "loadFault") == 0
 			}
 			c.Ops = append(c.Ops, op)
 		}
